@@ -1760,6 +1760,9 @@ fn verify_nsec(
             || nsec_data.type_set().contains(RecordType::CNAME)
         {
             nsec1_yield(Proof::Bogus, "direct match, record type should be present")
+        } else if query.query_type != RecordType::DS && is_ancestor_delegation(nsec_data) {
+            // RFC 6840 4.1: the parent's NSEC at a zone cut only proves the absence of DS
+            nsec1_yield(Proof::Bogus, "direct match is an ancestor delegation NSEC")
         } else if response_code == ResponseCode::NoError && !have_answer {
             nsec1_yield(Proof::Secure, "direct match")
         } else {
